@@ -29,14 +29,33 @@ def _freeze_value(x):
         return x
 
 
+def _type_signature(x):
+    # Python compares 2 == 2.0 == True (with equal hashes), such that frozen values alone conflate arguments of
+    # different types in the cache key. The types of all (nested) values are therefore made part of the key.
+    if isinstance(x, tuple):
+        return tuple(_type_signature(v) for v in x)
+    elif isinstance(x, frozendict.frozendict):
+        return tuple((k, _type_signature(v)) for k, v in x.items())
+    else:
+        return type(x)
+
+
 def _freeze_args(func):
     @functools.wraps(func)
     def func_frozen(*args, **kwargs):
         args = [_freeze_value(a) for a in args]
         kwargs = {k: _freeze_value(v) for k, v in kwargs.items()}
-        return func(*args, **kwargs)
+        return func(_type_signature((tuple(args), frozendict.frozendict(kwargs))), *args, **kwargs)
 
     return func_frozen
+
+
+def _ignore_type_signature(func):
+    @functools.wraps(func)
+    def func_without_types(types, *args, **kwargs):
+        return func(*args, **kwargs)
+
+    return func_without_types
 
 
 def _with_retrace_warning(func):
@@ -97,6 +116,7 @@ def _with_retrace_warning(func):
 # 2. warns if there are more than EINX_WARN_ON_RETRACE cache failures from the same call site
 def lru_cache(func):
     func = _with_retrace_warning(func)
+    func = _ignore_type_signature(func)
 
     if max_cache_size > 0:
         func = functools.lru_cache(maxsize=max_cache_size if max_cache_size > 0 else None)(func)
